@@ -142,7 +142,13 @@ func raceRun(seed, run uint64, dir string) {
 	case <-time.After(20 * time.Second):
 		return // leave it; a deadlock is the scheduler arm's business
 	}
-	_ = db.Close()
+	// (Close itself may block for ever on a tree that leaks a lock: bounded as well)
+	closed := make(chan struct{})
+	go func() { _ = db.Close(); close(closed) }()
+	select {
+	case <-closed:
+	case <-time.After(10 * time.Second):
+	}
 }
 
 func raceTx(db *bolt.DB, e *work.Exec, txn *work.Txn) {
